@@ -11,13 +11,14 @@ LEVEL = {'diffx': 0, '.preamble': 1, '.meta': 1, '.change': 1, '..preamble': 2, 
 BLANKS = [b'\n', b'  \n', b'\t\n', b' \t \n', b'\x0b\n', b'\x0c\n']
 
 UNKNOWN_KEYS = ['x', 'my-option', 'X_1', 'zzz', 'Another-Key', 'q9', 'a_b-c']
-UNKNOWN_VALS = ['value', '1', '-5', '007', 'a/b', '/x', '1.0', 'text/x-diff', '_', '-', '.', 'A.b_c-d/e', '12abc', '1_0']
+UNKNOWN_VALS = ['value', '1', '-5', '007', 'a/b', '/x', '1.0', 'text/x-diff', '_', '-', '.', 'A.b_c-d/e', '12abc', '1_0',
+                '7' * 4300, '7' * 4301, '-' + '3' * 4400]
 
 
 def conv(v):
     """spec: integer-valued option values (-?[0-9]+) are integers"""
     import re
-    if re.fullmatch(r'-?[0-9]+', v):
+    if re.fullmatch(r'-?[0-9]+', v) and len(v.lstrip('-')) <= 4300:    # CPython's int/str digit limit: longer stays a string
         return int(v)
     return v
 
